@@ -10,10 +10,23 @@ mkdir -p "$SCR/repo"
 cp -r "${VERIF_REPO:-/repo}/src" "$SCR/repo/src"
 if ! (cd "$SCR/repo" && patch -p1 -s < "$PATCH"); then echo "try-patch: patch does not apply"; rm -rf "$SCR"; exit 2; fi
 BUILD="$(make -s REPO="$SCR/repo" VARIANT=asan print-build)"
+BUILDG="$(make -s REPO="$SCR/repo" VARIANT=gcc print-build)"
+# A patch that touches no header leaves every harness object as it is: seed the scratch build with the harness objects (and their
+# dependency files, which name the unchanged headers of the real repository) of the up-to-date baseline build, so that only the
+# repository's own translation units are compiled for the copy.
+if ! grep -qE '^\+\+\+ b/.*\.(h|hpp|inl)$' "$PATCH"; then
+	for V in asan gcc; do
+		[ "$V" = gcc ] && [ -n "${VERIF_NO_GCC_LANE:-}" ] && continue
+		./check --build $V >/dev/null 2>&1
+		BASE="$(make -s REPO="${VERIF_REPO:-/repo}" VARIANT=$V print-build)"
+		B="$(make -s REPO="$SCR/repo" VARIANT=$V print-build)"
+		if [ -d "$BASE/sim" ]; then mkdir -p "$B"; cp -a "$BASE/sim" "$B/sim"; fi
+	done
+fi
 VERIF_REPO="$SCR/repo" VERIF_EVIDENCE_DIR="$SCR/ev" VERIF_REPLAY_DIR="$SCR/replays" ./check "$PROP" "$TIER" > "$SCR/out.txt" 2>&1
 RC=$?
 grep -E "VIOLATION|note:|simrun:|KNOWN|check:" "$SCR/out.txt" | head -12
 if [ -n "${KEEP_REPLAYS:-}" ] && [ -d "$SCR/replays" ]; then mkdir -p "$KEEP_REPLAYS"; cp "$SCR"/replays/* "$KEEP_REPLAYS"/ 2>/dev/null; fi
-rm -rf "$SCR" "$BUILD"
+rm -rf "$SCR" "$BUILD" "$BUILDG"
 echo "try-patch: property=$PROP tier=$TIER exit=$RC"
 exit $RC
